@@ -169,39 +169,51 @@ theorem CohAt_end (s : SStr) (text : List Char) (h : CohAt s text text.length) :
   simp at hlen
   exact ⟨hp, by omega, by rw [hrc.bb]; simp, hrc.good⟩
 
-theorem SStr.write_spec (s : SStr) (text cs : List Char) (h : Coh s text) (he : s.tell = text.length) :
+theorem SStr.rollover_spec (s : SStr) (text : List Char) (h : Coh s text) (hch : 0 < s.chunk) :
+    Coh s.rollover text ∧ s.rollover.tell = s.tell ∧ s.rollover.chunk = s.chunk := by
+  unfold SStr.rollover
+  split
+  · exact ⟨h, rfl, rfl⟩
+  · have h0 : CohAt { s with st := (File.empty : File CU).write s.st.data, rd := Reader.reset, rolled := true }
+        text text.length := by
+      refine ⟨?_, ?_, Nat.le_refl _, ⟨[], 0, ⟨?_, rfl, rfl, rfl⟩, ?_⟩, Or.inl rfl⟩
+      · show ((File.empty : File CU).write s.st.data).data = encode text
+        rw [File.write_empty]; exact h.data
+      · show InRange ((File.empty : File CU).write s.st.data)
+        rw [File.write_empty]; simp [InRange]
+      · show ((File.empty : File CU).write s.st.data).rest = _
+        rw [File.write_empty]; simp [File.rest]
+      · simp [pend, Reader.merge, Reader.reset]
+    have hs := SStr.seek_spec _ text text.length s.tell h0 h.ale hch
+    refine ⟨?_, hs.2.1, hs.2.2⟩
+    unfold Coh; rw [hs.2.1]; exact hs.1
+
+theorem SStr.write_spec (s : SStr) (text cs : List Char) (h : Coh s text) (he : s.tell = text.length)
+    (hch : 0 < s.chunk) :
     Coh (s.write cs) (text ++ cs) ∧ (s.write cs).tell = (text ++ cs).length ∧ (s.write cs).chunk = s.chunk := by
-  unfold Coh at h
-  rw [he] at h
-  rcases CohAt_end s text h with ⟨hp, hpos, hbb, hgood⟩
-  have hdata := h.data
-  have key : ∀ (s' : SStr), s'.st = s.st.write (encode cs) → s'.tell = s.tell + cs.length →
-      (pend s'.rd = [] ∧ s'.rd.bytebuf = [] ∧ s'.rd.bad = false ∧ LbOK s'.rd) → Coh s' (text ++ cs) := by
-    intro s' hst htell ⟨hp', hbb', hgood', hlb'⟩
-    have hw := File.write_end s.st (encode cs) hpos
+  -- appending to any coherent state that stands at the end
+  have key : ∀ (s0 s' : SStr), Coh s0 text → s0.tell = text.length → s'.st = s0.st.write (encode cs) →
+      s'.rd = s0.rd → s'.tell = s0.tell + cs.length → Coh s' (text ++ cs) := by
+    intro s0 s' h0 he0 hst hrd htell
+    unfold Coh at h0
+    rw [he0] at h0
+    rcases CohAt_end s0 text h0 with ⟨hp, hpos, hbb, hgood⟩
+    have hw := File.write_end s0.st (encode cs) hpos
     unfold Coh
-    have ht : s'.tell = (text ++ cs).length := by rw [htell, he]; simp
+    have ht : s'.tell = (text ++ cs).length := by rw [htell, he0]; simp
     rw [ht]
-    refine ⟨?_, ?_, Nat.le_refl _, ⟨[], 0, ⟨?_, ?_, rfl, hgood'⟩, ?_⟩, hlb'⟩
-    · rw [hst, hw, hdata, encode_append]
+    refine ⟨?_, ?_, Nat.le_refl _, ⟨[], 0, ⟨?_, ?_, rfl, ?_⟩, ?_⟩, by rw [hrd]; exact h0.lb⟩
+    · rw [hst, hw, h0.data, encode_append]
     · rw [hst, hw]; simp [InRange, hpos]
     · rw [hst, hw]; simp [File.rest, hpos]
-    · rw [hbb']; rfl
-    · rw [hp']; simp
+    · rw [hrd, hbb]; rfl
+    · rw [hrd]; exact hgood
+    · rw [hrd, hp]; simp
   unfold SStr.write
   split
-  · have hro : s.rollover.st = s.st ∧ (pend s.rollover.rd = [] ∧ s.rollover.rd.bytebuf = [] ∧
-        s.rollover.rd.bad = false ∧ LbOK s.rollover.rd) ∧ s.rollover.chunk = s.chunk := by
-      unfold SStr.rollover
-      split
-      · exact ⟨rfl, ⟨hp, hbb, hgood, h.lb⟩, rfl⟩
-      · refine ⟨?_, ⟨?_, rfl, rfl, Or.inl rfl⟩, rfl⟩
-        · simp only [File.write, File.empty, File.seek]
-          cases hs : s.st with
-          | mk d q => simp
-        · simp [pend, Reader.merge, Reader.reset]
-    refine ⟨key _ (by simp [hro.1]) rfl hro.2.1, by simp [he], hro.2.2⟩
-  · exact ⟨key _ rfl rfl ⟨hp, hbb, hgood, h.lb⟩, by simp [he], rfl⟩
+  · have hro := SStr.rollover_spec s text h hch
+    refine ⟨key s.rollover _ hro.1 (by rw [hro.2.1, he]) rfl rfl (by simp [hro.2.1]), by simp [he], hro.2.2⟩
+  · exact ⟨key s _ h he rfl rfl rfl, by simp [he], rfl⟩
 
 theorem SStr.readlines_spec (s : SStr) (text : List Char) (h : Coh s text) :
     s.readlines.1 = splitL false (text.drop s.tell) ∧ Coh s.readlines.2 text ∧
